@@ -98,6 +98,26 @@ Theorem C16_seed_spec : forall (force : bool) (id : ident) (tg : N) (cr : bool) 
 Proof. exact seed_spec. Qed.
 Print Assumptions C16_seed_spec.
 
+(* seed acceptance does not depend on the trusted group (the model's seed_read/seed_valid take no trusted-group
+   argument; --trusted-group only enters the walk over the seed's directories): under any two trusted groups
+   that both let the start go on, the same seed is used / removed / blocks; and a seed with a group read or
+   write bit (mode land 0060 <> 0) is never used — whatever its group, the trusted group included *)
+Theorem C16_seed_acceptance_ignores_trusted_group :
+  forall (force : bool) (id : ident) (tg tg' : N) (cr : bool) (o : fobs) (chain : list dstat),
+  (sr_refuse (seed_step force id tg cr o chain) = None ->
+   sr_refuse (seed_step force id tg' cr o chain) = None ->
+   sr_used (seed_step force id tg cr o chain) = sr_used (seed_step force id tg' cr o chain) /\
+   sr_removed (seed_step force id tg cr o chain) = sr_removed (seed_step force id tg' cr o chain) /\
+   sr_hang (seed_step force id tg cr o chain) = sr_hang (seed_step force id tg' cr o chain)) /\
+  (forall s, o_stat o = Some s -> N.land (f_mode s) 48 <> 0 ->
+   sr_used (seed_step force id tg cr o chain) = false).
+Proof.
+  intros force id tg tg' cr o chain.
+  split; [exact (seed_ignores_trusted_group force id tg tg' cr o chain)|].
+  intros s. exact (seed_group_bits_never_used force id tg cr o chain s).
+Qed.
+Print Assumptions C16_seed_acceptance_ignores_trusted_group.
+
 (* observation / candidate finding: with the source as it stands (seed_open_nonblock = false) a FIFO at
    the seed path wedges the start; once the seed is opened with O_NONBLOCK the same configuration starts,
    the FIFO unused and unlinked.  Stated so that it checks on either side of the repair. *)
